@@ -1,6 +1,7 @@
 import MpVerif.C01.ModelProp
 import MpVerif.C01.ModelGadgets
 import MpVerif.C01.ModelGadgets2
+import MpVerif.C01.Lemmas
 import MpVerif.Gen.C01Decisions
 import MpVerif.Gen.C01Context
 import MpVerif.Gen.C01PropDown
@@ -292,5 +293,18 @@ theorem C01_sort_terms_value (x : Asg) (l : Lin) : evalLin x (sortTerms l) = eva
 /-- … hence a stored row holds iff the row as emitted by the gadget holds -/
 theorem C01_stored_sat (x : Asg) (c : Con) : c.stored.sat x ↔ c.sat x := by
   cases c <;> simp [Con.stored, Con.sat, C01_sort_terms_value]
+
+/-- link between the function the driver op `mulbin` executes (`gMulBinTerm`) and `C01_gadget_mul_binary_term`: whenever the row emitted by
+`gMulBinTerm b o zero B n` holds (result variable `n`, stored context `none` = equality), replacing the product term `c * b * o` by `c * n`
+keeps the value of the body -/
+theorem C01_tie_mulbin_term (c : Rat) (b o zr : Var) (B : Bnds) (n : Nat) (lin : Lin) (y : Asg)
+    (hb : y b = 0 ∨ y b = 1) (hz : y zr = 0) (hsat : ∀ k ∈ (gMulBinTerm b o zr B n).cons, k.sat y) :
+    evalLin y (lin ++ [(c, n)]) = evalLin y lin + evalQuad y [(c, b, o)] := by
+  have h1 : (Con.func n .none (.ifthen b o zr)).sat y := hsat _ (by simp [gMulBinTerm])
+  have hr : y n = Fun.val y (.ifthen b o zr) := by
+    simpa [Con.sat, rel, req, Ctx.eff] using h1
+  -- same computation as `C01_gadget_mul_binary_term` (Props.lean), instantiated at the row of `gMulBinTerm`
+  simp only [evalLin_append, evalLin_cons, evalLin_nil, evalQuad, hr, Fun.val]
+  rcases hb with h | h <;> simp [h, hz] <;> grind
 
 end MpVerif.C01
